@@ -9,7 +9,8 @@ def exprTables : Tables :=
   { simp := [⟨.add, false, 0⟩, ⟨.add, true, 0⟩, ⟨.sub, false, 0⟩, ⟨.mul, false, 1⟩, ⟨.mul, true, 1⟩, ⟨.truediv, false, 1⟩, ⟨.pow, false, 1⟩],
     vecOps := [(.add, false, true), (.add, true, true), (.sub, false, true), (.sub, true, false), (.mul, false, false), (.truediv, false, false)],
     pythonDispatch := true,
-    vecHandlerAcceptsSeq := true }
+    vecHandlerAcceptsSeq := true,
+    vecOpsWrapOperands := true }
 
 /-- `X * globalOrientation -> X` style simplifications on Orientation-typed values: (operator, reflected) -/
 def orientationIdentityOps : List (BinOp × Bool) := [(.mul, false), (.mul, true)]
@@ -22,8 +23,13 @@ def reversibleOperators : List String := ["__add__", "__radd__", "__sub__", "__r
 def vectorPlainDunders : List String := ["__rmul__"]
 /-- named Vector methods with their lifting decorator -/
 def vectorNamedOps : List (String × String) := [("applyRotation", "vectorOperator"), ("sphericalCoordinates", "vectorOperator"), ("rotatedBy", "zeroPreservingVectorOperator"), ("offsetRotated", "vectorOperator"), ("offsetLocally", "vectorOperator"), ("offsetRadially", "vectorOperator"), ("distanceTo", "scalarOperator"), ("angleTo", "scalarOperator"), ("azimuthTo", "scalarOperator"), ("altitudeTo", "scalarOperator"), ("angleWith", "scalarOperator"), ("norm", "scalarOperator"), ("dot", "scalarOperator"), ("cross", "vectorOperator"), ("normalized", "vectorOperator")]
-/-- the vector operators wrap tuple/list operands with toDistribution (the model does not cover such operands) -/
-def vectorOperatorsWrapOperands : Bool := true
+/-- `scalarOperator` (distanceTo, angleTo, norm, dot, ...) samples a Vector with random coordinates it is applied to
+    (3b90c565); these operators are outside the Lean model, the flag is re-decided by `gen_scalar_operator_samples_self` -/
+def scalarOperatorSamplesSelf : Bool := true
+/-- MultiplexerDistribution keeps its selector in a private attribute (e1aeac6d: `self.index` shadowed the `index`
+    method of the sampled tuples/lists/strings) -/
+def multiplexerSelectorAttr : String := "_index"
+def multiplexerSelectorPrivate : Bool := true
 /-- functions of geometry.py declared `monotonicDistributionFunction` -/
 def monotoneDeclared : List String := ["max", "min"]
 
